@@ -225,8 +225,8 @@ class _Tokenizer:
         """
         self.matcher = re.compile(tokenizer_str, re.VERBOSE)
         self.span_matchers = self._prepare_span_matchers(span_matchers, self.matcher)
-        self.synonyms = synonyms or {}
-        self.keywords = keywords or {}
+        self.synonyms = dict(synonyms or {})
+        self.keywords = dict(keywords or {})
         self.end_token_name = end_token_name
 
     def get_all_token_names(self):
